@@ -33,10 +33,12 @@ P = {
                {"module": "I_Typha", "cfg": "MC_I_Typha_live.cfg", "workers": 4, "timeout": 900, "thorough_timeout": 1700,
                 "heap": "4g"}],
     "gen": {"module": "Gen_Typha", "cfg": "Gen_cover_flap.cfg", "workers": 1,
-            "max": 500, "thorough_max": 6000, "timeout": 900, "thorough_timeout": 1700},
+            "max": 500, "thorough_max": 4000, "timeout": 900, "thorough_timeout": 1700},
     "driver": {"cmd": "typha", "timeout": 1700},
-    "n_random": (150, 2000),
-    "trace": {"module": "T_Typha", "cfg": "T_Typha.cfg", "timeout": 900, "heap": "4g"},
+    "n_random": (150, 1200),
+    "trace": {"module": "T_Typha", "cfg": "T_Typha.cfg", "timeout": 1500, "heap": "4g"},
+    # validate in chunks of ~40k events: the HWM search of T_Typha is super-linear in the file length
+    "chunk": 40000,
     "chunk": 120000,
     "signature": signature,
     "nontrivial": nontrivial,
